@@ -349,6 +349,34 @@ def enum_cases(depth):
     return out
 
 
+_T2 = []
+
+
+def enum3_cases(rng, n):
+    """depth 3 is 2.2e7 trees (9 binary constructors x 1 561^2): not enumerable.  Every top
+    constructor in turn over operands drawn uniformly from the COMPLETE depth-<=2 set, at
+    least one operand of depth exactly 2; spaced and fully glued."""
+    if not _T2:
+        _T2.extend(enum_abstract(2, None))
+    deep = [t for t in _T2 if t is not None and any(k is not None for k in t[2:])]
+    out = []
+    ctors = BINARY + UNARY
+    for i in range(n):
+        ctor = ctors[i % len(ctors)]
+        ar = len(PROD[ctor][1])
+        kids = [rng.choice(_T2) for _ in range(ar)]
+        kids[rng.randrange(ar)] = rng.choice(deep)
+        ab = (ctor, rng.choice(SPELL[ctor])) + tuple(kids)
+        names = iter(["a", "b", "c", "d", "e", "f", "g", "h"] + ["v%d" % i for i in range(64)])
+        tree = parenthesize(_name_leaves(ab, names))
+        toks = tokens_of(tree)
+        out.append(make_case(tree, toks, [False] * len(toks), "enum"))
+        glue = rand_glue(rng, toks, 1.0)
+        if any(glue):
+            out.append(make_case(tree, toks, glue, "enum"))
+    return out
+
+
 MAL_TOKENS = ["a", "b", ".true.", "1.0e-3", "(", ")", "(", ")", "+", "-", "*", "/", "**", "//",
               "==", ".eq.", "<", ".not.", ".and.", ".or.", ".eqv.", ".neqv.", ".x.", ".my."]
 
